@@ -37,12 +37,16 @@ def main():
         os.makedirs(os.path.join(wt, "tests"), exist_ok=True)
         name = os.path.splitext(os.path.basename(demo))[0]
         shutil.copy(demo, os.path.join(wt, "tests", name + ".rs"))
-        rc, log = run(["cargo", "test", "--offline", "--test", name], wt, env)
+        # a change that shows only without debug assertions is demonstrated in the release profile (CONFIRM_RELEASE=1)
+        rel = ["--release"] if os.environ.get("CONFIRM_RELEASE") else []
+        if rel:
+            out["demo_profile"] = "release"
+        rc, log = run(["cargo", "test", "--offline", "--test", name] + rel, wt, env)
         tail = [l for l in log.splitlines() if l.startswith("test result")]
         out["demo_fails_with_change"] = rc != 0 and bool(tail)
         out["demo_with_change"] = tail[-1] if tail else log[-300:]
         subprocess.run(["git", "-C", wt, "checkout", "--", "src"], check=True)
-        rc, log = run(["cargo", "test", "--offline", "--test", name], wt, env)
+        rc, log = run(["cargo", "test", "--offline", "--test", name] + rel, wt, env)
         tail = [l for l in log.splitlines() if l.startswith("test result")]
         out["demo_passes_without_change"] = rc == 0
         out["demo_without_change"] = tail[-1] if tail else log[-300:]
